@@ -8,11 +8,12 @@ CONSTANTS
   InitMax = 5
   AllowSlow = TRUE
   ParamKinds = {}
-  Disabled = {"UserStats", "SessionLost", "ChildAnnounce"}
+  Disabled = {"SessionLost", "ChildAnnounce"}
   MaxEvents = 7
   Askers = {"me", "u1"}
-  Queries = {"qhit", "qmiss"}
+  Queries = {"qhit", "qmiss", "qphr", "qgone"}
   Hits <- MC_Hits
+  HitsX <- MC_HitsX
   MaxSearches = 4
   FixReannounce = TRUE
   FixChildParent = TRUE
